@@ -57,3 +57,13 @@ let fields (s : string) : string list =
 
 let iter_lines (f : string -> unit) : unit =
   try while true do f (input_line stdin) done with End_of_file -> ()
+
+(* deterministic row content shared with the Go harness (harness/c15.go rowBytes) *)
+let row_bytes (n : int) (seed : int) : n list =
+  List.init n (fun j -> n_of_int ((seed + j * 131 + (j / 256) * 17) land 0xff))
+
+let fnv (l : n list) : int64 =
+  List.fold_left (fun h b -> Int64.mul (Int64.logxor h (Int64.of_int (int_of_n b))) 1099511628211L)
+    (-3750763034362895579L) (* 14695981039346656037 as signed int64 *) l
+
+let digest (l : n list) : string = Printf.sprintf "%d:%016Lx" (List.length l) (fnv l)
